@@ -377,6 +377,28 @@ def run(F, rep, tier):
             rep.viol('R9.5', 'builtin|%s|result-side' % nm, 'the result of %s takes its %s from the right operand on some path (%s): which dict\'s default (and map) survives then depends on a run-time condition such as whether the left dict is shared' % (nm, bad[0][1], bad[0][2]), b.loc(bad[0][0]))
         else:
             rep.ok('R9.5', 'builtin %s result' % nm, '%d Seq::Dict result(s), map and default from the left operand' % len(dicts))
+    # ---------------- R9.7
+    rep.rule('R9.7', 'set(xs) is a dictionary of its own: Set::run builds the result from a freshly collected map (every key -> null); it never '
+             'returns a Seq::Dict whose map is the argument\'s (the values of a dictionary argument would survive in the "set")')
+    sr = '<Set as core::Builtin>::run'
+    if not F.has_fn(sr):
+        rep.error('R9.7', sr + ' missing')
+    else:
+        sb7 = F.body(sr)
+        reuse = []
+        for bb, s_ in sb7.aggregates():
+            if s_[2][2] == 'core::Seq' and s_[2][4] == 'Dict' and s_[2][5]:
+                og = origins(sb7, s_[2][5][0], passthru=('clone', 'deref'))
+                if any(o[0] in ('payload', 'param') for o in og):
+                    reuse.append(bb)
+        fresh = [c for c in sb7.calls if c.target.endswith('Obj::dict') or c.target.rsplit('::', 1)[-1] in ('collect', 'from_iter')]
+        if reuse:
+            rep.viol('R9.7', 'Set::run|reuses-argument-map', 'set(d) returns the argument dictionary\'s own map: its values are kept, so set({1: \'a\'})[1] is \'a\' instead of null and two sets of the same keys compare unequal', sb7.loc(reuse[0]))
+        elif fresh:
+            rep.ok('R9.7', 'Set::run', 'result collected afresh')
+        else:
+            rep.note('R9.7: Set::run builds its result in an unrecognised way: not decided')
+            rep.ok('R9.7', 'Set::run (idiom not recognised)', 'not decided')
     # ---------------- R9.6
     rep.rule('R9.6', 'hashing never narrows: the hash functions of keys (total_hash_of_key, ObjKey/NInt Hash impls, NNum::total_hash, '
              'consistent_hash_rational / consistent_hash_f64) contain no float->int or narrowing integer `as` cast, and NInt::hash decides '
